@@ -1,18 +1,30 @@
 """Model-table entries and spec symbols for the functional (Chebyshev) TT routines of teneva/func.py (contracts/func_more.py; C12, C11).
 
 Everything follows the wrapping pattern of kr.py (keep the previous hook, fall through to it) and is ACTIVE ONLY for executors that
-carry the flag `ex.functt = True`, so that the units of the other contract files see exactly the engine they were written against.
+carry the flag `ex.functt = True` (sub-flags: `ex.none_list_holds_cores` for `[None] * n` lists that are filled with cores,
+`ex.functt_shapes` for the shape tier of func_diff_matrix, `ex.functt_lsq` for func_int_general), so that the units of the other
+contract files see exactly the engine they were written against.
 
 New theory symbols (every group is exercised by lemmas/spotcheck.py through lemmas/spotcheck_ext_func.py):
   cheb(k, x)                 T_k(x) by the three-term recurrence (same declaration as in contracts/func.py)            group 'cheb'
   cmode(G, M)                np.einsum('riq,ij->rjq', G, M): mode product of a core with a matrix                      group 'cmode'
   modesum(G, M, a, j, b, k)  sum_{i<k} G[a, i, b] * M[i, j]      (the defining finite sum of cmode)                    group 'cmode'
-  chebsum(G, x, a, b, k)     sum_{i<k} G[a, i, b] * T_i(x)       (spec function of func_gets / func_get)               group 'chebsum'
+  chebsum(G, x, a, b, k)     sum_{i<k} G[a, i, b] * T_i(x)       (spec function of func_gets)                          group 'chebsum'
   cslset(G, j, M)            G with the mode slice G[:, j, :] replaced by M                                            group 'cslset'
   dct1(G)                    scipy.fftpack.dct(G, 1, axis=1)  (un-normalised DCT-I along the mode axis)                group 'dct1'
   dct1sum(G, a, k, b, j)     sum_{1<=i<j} G[a, i, b] * cos(pi k i / (n-1)),  sgnpow(k) = (-1)^k                        group 'dct1'
+  centry / sl link           G[a, j, b] = (G[:, j, :])[a, b]                                                           group 'centsl'
   cstep2(G)                  G[:, ::2]  (every second mode slice)                                                      group 'cstep2'
+  mulI(k, k) facts           squares of integers in the product abstraction: >= 0, = 1 only for k = +-1, = 0 only for 0 group 'isq'
   ccchain(Y, a, b, w, k)     prod_{t<k} (b_t-a_t)/2 * wsum(cstep2(Y[t]), w)  (spec function of func_sum)               group 'ccchain'
+  mrow(M, i), pcol(X, k), bsel(T, s)   rows of matrices / columns of point batches as vectors, weights of one sample   group 'mrow'
+  chebscale(x, a, b)         the map of poi_scale(., a, b, 'cheb'), abstract inside e-matching proofs                   group 'chebscale'
+  entries of tr / lcols / row                                                                                          group 'entsub'
+  munf(G), mfold(M, r1, r2), lsqsol(H, M)   mode unfolding, its inverse, scipy.linalg.lstsq(H, M)[0] (shapes only)      group 'lsqsol'
+
+Engine extensions (all gated): closures (`lambda` with captured values), lists of closures / of matrices built by comprehensions
+(per-element intermediate values become functions of the position), `try / except TypeError`, `[x] * n` for arrays, `[None] * n` lists
+filled with cores, batches of points (2-D float arrays with a denotation), `max` / `np.max` of vectors, stepped `np.arange`.
 """
 import ast
 import z3
